@@ -162,6 +162,24 @@ def shard_template(acc, shard, nshards, params):
                family="%s[shared output template, entries=%s]" % (name, list(alphabet)))
 
 
+def shard_cancel(acc, shard, nshards, params):
+    """matmul with signed entries (partial sums cancel: an output row that exists can end a pass at zero while a new
+    one was created earlier in the same pass), untiled, every loop order, both styles."""
+    name = "matmul"
+    out, ins = EXPRS[name]
+    shapes = shapes_for(name)
+    orders = list(itertools.permutations(index_vars(ins)))
+
+    def gen():
+        for a in all_values(ins[0], shapes, (-1, 0, 1)):
+            for b in all_values(ins[1], shapes, (0, 1)):
+                for order in orders:
+                    for style in ("two-finger", "leader-follower"):
+                        yield (name, (a, b), order, (), style, False)
+    core.drive(acc, "kernel", case_kernel, gen(), shard, nshards,
+               family="matmul[A in {-1,0,1}, B in {0,1}: cancelling partial sums]", deadline=params)
+
+
 CASES = {"kernel": case_kernel, "template": case_template}
 
 
@@ -191,6 +209,9 @@ def run(ctx):
         if ctx.only and n not in ctx.only:
             continue
         ctx.shards(shard_expr, (n, a, t, p, time.time() + (60 if q else 900)))
+    if not ctx.only or "cancel" in ctx.only:
+        ctx.shards(shard_cancel, time.time() + (90 if q else 600))
+    ctx.bounds["cancel"] = "matmul 2x2x2 with A over {-1,0,1} and B over {0,1}, untiled, every loop order, both styles"
     ctx.bounds["division-tiling"] = ("tile_mode >= 1 also tiles through `tensor / parts` (parts = 1..extent) where the variable is the "
                                      "top rank of every operand holding it")
     ctx.bounds["shared-output-template"] = ("outer, matmul, elem2d (thorough: + matvec, rowsum): two kernels with every pair of loop "
